@@ -42,9 +42,14 @@ pub trait ExtractAttribute {
         // and a place that will keep the forwarded items.
         let will_fwd_any = self.forward_attrs().will_forward_any();
 
+        let fwd_population = self.forward_attrs().as_value_populator();
+
         if !(will_parse_any || will_fwd_any) {
+            // No attribute is read, but a field receiving the (then empty) forwarded list
+            // must still be given its value.
             return quote! {
                 #declarations
+                #fwd_population
             };
         }
 
@@ -85,8 +90,6 @@ pub trait ExtractAttribute {
         } else {
             quote!()
         };
-
-        let fwd_population = self.forward_attrs().as_value_populator();
 
         // Specifies the behavior for unhandled attributes. They will either be silently ignored or
         // forwarded to the inner struct for later analysis.
